@@ -1,10 +1,91 @@
 package main
 
 import (
+	"os"
+
+	"k8s.io/gengo/v2/generator"
 	"k8s.io/gengo/v2/namer"
+	"k8s.io/gengo/v2/parser"
 	"k8s.io/gengo/v2/types"
 	"verif/common"
 )
+
+// contextOrder: generator.NewContext on the universe parsed from the spec's source; judged by common.ContextOracle
+func contextOrderOf(s *common.OrderSpec, n string, c *generator.Context, want []string) ([]int, string, error) {
+	canon := orderNamer(n)
+	var names []string
+	seen := map[*types.Type]bool{}
+	distinct := true
+	for _, t := range c.Order {
+		names = append(names, canon.Name(t))
+		if seen[t] {
+			distinct = false
+		}
+		seen[t] = true
+	}
+	total := 0
+	for _, p := range c.Universe {
+		total += len(p.Types) + len(p.Functions) + len(p.Variables) + len(p.Constants)
+	}
+	var have []string
+	for k := range c.Namers {
+		have = append(have, k)
+	}
+	wrong := common.ContextOracle(names, len(c.Order), total, distinct, have, want)
+	// ids of the spec's entries, in the order they have in Context.Order
+	id := map[*types.Type]int{}
+	k := 0
+	for _, p := range s.Pkgs {
+		pk := c.Universe[p.Path]
+		for ci, l := range [][]string{p.Types, p.Funcs, p.Vars, p.Consts} {
+			for _, nm := range l {
+				var t *types.Type
+				if pk != nil {
+					t = []map[string]*types.Type{pk.Types, pk.Functions, pk.Variables, pk.Constants}[ci][nm]
+				}
+				if t != nil {
+					id[t] = k
+				}
+				k++
+			}
+		}
+	}
+	var ids []int
+	for _, t := range c.Order {
+		if i, ok := id[t]; ok {
+			ids = append(ids, i)
+		}
+	}
+	return ids, wrong, nil
+}
+
+func contextOrder(s *common.OrderSpec, n string) ([]int, string, error) {
+	prog := &common.Program{Module: "example.com/m", V2: true}
+	var req []string
+	for i := range s.Pkgs {
+		p := &s.Pkgs[i]
+		prog.Pkgs = append(prog.Pkgs, &common.ProgPkg{Path: p.Path, Name: "x", File: "decls.go", Source: p.SourceOf()})
+		req = append(req, p.Path)
+	}
+	root, err := os.MkdirTemp("", "verif-ord-")
+	if err != nil {
+		return nil, "", err
+	}
+	defer os.RemoveAll(root)
+	if err := writeModule(prog, root); err != nil {
+		return nil, "", err
+	}
+	p := parser.New()
+	if err := p.LoadPackagesWithConfigForTesting(pkgConfig(root), req...); err != nil {
+		return nil, "", err
+	}
+	systems := namer.NameSystems{"canon": orderNamer(n), "aaa": namer.NewPublicNamer(3), "zzz": namer.NewRawNamer("", nil)}
+	c, err := generator.NewContext(p, systems, "canon")
+	if err != nil {
+		return nil, "", err
+	}
+	return contextOrderOf(s, n, c, []string{"canon", "aaa", "zzz"})
+}
 
 func orderNamer(n string) namer.Namer {
 	switch n {
@@ -75,6 +156,7 @@ func init() {
 			}
 			return out
 		},
+		ContextOrder: contextOrder,
 		OrderTypes: func(s *common.OrderSpec, n string, list []int) []int {
 			_, byID := orderUniverse(s)
 			in := make([]*types.Type, len(list))
